@@ -459,6 +459,8 @@ def describe_prestate(st, user):
 
 def oracle(case, obs):
     """property statement checked directly on what the real code did. Returns [Failure]."""
+    if case.get("_srctree"):
+        return srctree_oracle(case, obs)
     if not in_domain(case):
         return []
     fails = []
@@ -805,7 +807,9 @@ def worker_main():
             continue
         case = json.loads(line)
         try:
-            if case.get("_strace"):
+            if case.get("_srctree"):
+                obs = run_srctree(case)
+            elif case.get("_strace"):
                 obs = run_strace_history(case)
             else:
                 obs = run_history(case)
@@ -1064,6 +1068,316 @@ def case_signature(case, obs):
             fin["status"], json.dumps(normalise_result(case, fin["result"]) if fin["status"] == "returned" else None))
 
 
+# ----------------------------------------------------------------------------------------------
+# specification-level source layouts (`SrcTree` of lean/KDVerif/Model/C20Spec.lean) run against the real code
+# ----------------------------------------------------------------------------------------------
+# A case: {"_srctree": True, "fn": "folder"|"imagefolder", "rel": None|str, "tree": <SrcTree as JSON, the driver's layout>,
+#          raw : "empty_dirs": [top-level empty folders]            (counted in nItems)
+#          zips: "archive_names": [file name per archive], "other_names": [name | "name/" (a folder holding one file)]
+#          raw/zips with zipSibling: "sibling_members": [...]       (content of the `<src>.zip` that must be ignored)
+#          zip : "src_is_file": bool                                (`<src>` exists but is a regular file)
+#          imagefolder, kind zip: "rel_zip_suffix": bool            (relative_path passed as "<rel>.zip")}
+# The tree is MATERIALISED as its constructor's doc string says; the real function then runs on it uninterrupted.
+ST_DIRS = ["", "", "c0", "c1", "sub", "n01440764", "deep/er", "c0/inner"]
+ST_NAMES = ["a.bin", "b.png", "img_0.JPEG", "x.txt", "data.npy", "README", ".hidden", "w v.bin", "Z.BIN", "k.tar.gz", "0"]
+ST_OTHERS = ["README.md", "LICENSE", "meta.json", "notes.txt", "labels.csv", "extra/", "docs/", ".gitignore"]
+ST_STEMS = ["n0", "n1", "n01440764", "cls a", "dog", "cat", "v1.2"]
+
+
+def _zip_bytes_to(path, members, salt=0):
+    path.parent.mkdir(parents=True, exist_ok=True)
+    with zipfile.ZipFile(path, "w") as z:
+        for m in members:
+            z.writestr(m, content_of(m, salt))
+
+
+def st_clear(tree):
+    """the property text's notion of a clear-cut layout (python side; the model's `Clear` is compared with it as well)"""
+    if tree["kind"] == "raw":
+        return tree["nZips"] == 0 or tree["nZips"] < tree["nItems"] // 2
+    if tree["kind"] == "zip":
+        return True
+    na = len(tree["archives"])
+    return na > 0 and na >= (na + tree["others"]) // 2
+
+
+def st_members(tree):
+    if tree["kind"] == "raw":
+        return list(tree["files"])
+    if tree["kind"] == "zip":
+        return list(tree["members"])
+    return [m for a in tree["archives"] for m in a]
+
+
+def materialise_srctree(case, root):
+    """builds the source the SrcTree value describes; returns (global_path, local_path, relative_path argument, dst_path)"""
+    tree, fn, rel = case["tree"], case["fn"], case["rel"]
+    g = root / "global"
+    base = root / "L"
+    base.mkdir()
+    loc = base / "local"
+    if rel is not None:
+        loc.mkdir()          # rel None: the destination is the local root itself, which must not exist yet (else: manual copy)
+    src = g / rel if rel is not None else g
+    src.parent.mkdir(parents=True, exist_ok=True)
+    sib = Path(str(src) + ".zip")
+    kind = tree["kind"]
+    if kind == "raw":
+        src.mkdir()
+        for f in tree["files"]:
+            if f.endswith(".zip"):
+                _zip_bytes_to(src / f, ["inside_" + f.replace("/", "_")[:-4] + ".bin"], salt=7)   # a real archive, copied as a file
+            else:
+                _write(src / f, content_of(f))
+        for d in case.get("empty_dirs", []):
+            (src / d).mkdir()
+    elif kind == "zip":
+        if case.get("src_is_file"):
+            _write(src, b"not a folder")
+        _zip_bytes_to(sib, tree["members"])
+    elif kind == "zips":
+        src.mkdir()
+        names = case["archive_names"]
+        if len(names) != len(tree["archives"]) or len(set(names)) != len(names):
+            raise ValueError("archive_names do not match the archives")
+        for nme, members in zip(names, tree["archives"]):
+            if not nme.endswith(".zip") or "/" in nme:
+                raise ValueError(f"bad archive name {nme}")
+            if fn == "imagefolder":
+                # the twin extracts `<stem>.zip` into `<dst>/<stem>/`; SrcTree members are relative to the destination
+                stem = nme[:-4]
+                if any(not m.startswith(stem + "/") for m in members):
+                    raise ValueError(f"member of {nme} not below {stem}/")
+                inner = [m[len(stem) + 1:] for m in members]
+            else:
+                inner = list(members)
+            with zipfile.ZipFile(src / nme, "w") as z:
+                for m_in, m in zip(inner, members):
+                    z.writestr(m_in, content_of(m))
+        others = case.get("other_names", [])
+        if len(others) != tree["others"]:
+            raise ValueError("other_names do not match `others`")
+        for o in others:
+            if o.endswith("/"):
+                _write(src / o[:-1] / "inner.txt", b"a non-zip entry (folder)")
+            else:
+                _write(src / o, b"a non-zip entry")
+    else:
+        raise ValueError(kind)
+    if kind != "zip" and tree["zipSibling"]:
+        _zip_bytes_to(sib, case.get("sibling_members", ["sibling_only.bin"]), salt=3)
+    rel_arg = rel
+    if rel is not None and case.get("rel_zip_suffix") and fn == "imagefolder":
+        rel_arg = rel + ".zip"
+    dst = loc / rel if rel is not None else loc
+    return g, loc, rel_arg, dst
+
+
+def run_srctree(case, keep=False):
+    """materialise, observe the source as the code can (listdir / is_dir / exists), one uninterrupted real call, list the destination"""
+    root = new_root()
+    try:
+        g, loc, rel, dst = materialise_srctree(case, root)
+        src = g / case["rel"] if case["rel"] is not None else g
+        is_dir = src.exists() and src.is_dir()
+        items = os.listdir(src) if is_dir else []
+        seen = {"isDir": is_dir, "zipSibling": src.with_suffix(".zip").exists(), "nItems": len(items),
+                "nZips": sum(1 for i in items if i.endswith(".zip"))}
+        a = run_attempt({"fn": case["fn"], "fmt": "raw", "files": [], "workers": case.get("workers", 0)}, g, loc, rel, dst)
+        files, markers = [], []
+        if dst.is_dir():
+            for dp, _dns, fns in os.walk(dst):
+                for f in fns:
+                    rp = os.path.relpath(os.path.join(dp, f), dst)
+                    (markers if rp in (START, END) else files).append(rp)
+        return {"status": a["status"], "exc": a["exc"], "result": normalise_result(case, a["result"]) if a["status"] == "returned" else None,
+                "files": sorted(files), "markers": sorted(markers), "seen": seen,
+                "staging_left": tmp_path_of(dst).exists()}
+    finally:
+        if not keep:
+            shutil.rmtree(root, ignore_errors=True)
+
+
+def srctree_oracle(case, obs):
+    """the property text on a source given as one of the three layouts (no Lean involved): every SrcTree is a valid source;
+    a clear-cut layout is reported as what it is and its complete copy holds exactly the layout's files"""
+    tree, fails = case["tree"], []
+    hist = f"fn={case['fn']} layout={tree['kind']} rel={case['rel']} zipSibling={tree.get('zipSibling', tree['kind'] == 'zip')}"
+
+    def fail(key, what, expected, actual):
+        fails.append(Failure(key, f"{what} [{hist}]", case, expected, actual))
+
+    if obs["status"] != "returned":
+        if st_clear(tree):
+            fail("copy:layout-rejected", f"uninterrupted call on a valid {tree['kind']} source did not return: {obs['status']} {obs['exc']}",
+                 "normal return", obs["exc"] or obs["status"])
+        return fails
+    if not st_clear(tree):
+        return fails           # "mostly zips" heuristics on mixed folders: the property only speaks about the three clear-cut layouts
+    res = obs["result"]
+    if res != [True, False, tree["kind"]]:
+        fail("copy:layout-format", f"fresh copy of a {tree['kind']} source returned {res}", [True, False, tree["kind"]], res)
+    want = sorted(set(st_members(tree)))
+    if obs["files"] != want or obs["markers"] != sorted([START, END]) or obs["staging_left"]:
+        missing = sorted(set(want) - set(obs["files"]))
+        extra = sorted(set(obs["files"]) - set(want))
+        fail("copy:layout-file-set", f"normal return but the destination does not hold exactly the source's files: missing={missing[:4]} "
+             f"extra={extra[:4]} markers={obs['markers']} staging_left={obs['staging_left']}", want, obs["files"])
+    return fails
+
+
+def compare_srctree(case, obs, ans):
+    """model (`SrcTree.members/format/toSrc/Clear`, `checkSrc`, `fmtOf`) against what the real code saw and produced"""
+    if ans.get("error"):
+        return f"driver error {ans['error']}"
+    seen = obs["seen"]
+    for k in ("isDir", "zipSibling", "nItems", "nZips"):
+        if ans["toSrc"][k] != seen[k]:
+            return f"toSrc.{k}={ans['toSrc'][k]} but the materialised source shows {seen[k]}"
+    if ans["checkSrc"] != (obs["status"] == "returned"):
+        return f"checkSrc={ans['checkSrc']} but the real call {obs['status']} {obs['exc']}"
+    if ans["clear"] != st_clear(case["tree"]):
+        return f"Clear={ans['clear']} differs from the property text's reading of the layout"
+    if obs["status"] != "returned":
+        return None
+    got_fmt = obs["result"][2]
+    if ans["fmtOf"] != got_fmt:
+        return f"fmtOf(toSrc)={ans['fmtOf']} but the real result reports {got_fmt}"
+    if ans["clear"]:
+        if ans["format"] != got_fmt:
+            return f"format={ans['format']} but the real result reports {got_fmt}"
+        if sorted(set(ans["members"])) != obs["files"]:
+            return "members differ from the files below the destination"
+        if ans["toSrc"]["nFiles"] != len(obs["files"]):
+            return f"toSrc.nFiles={ans['toSrc']['nFiles']} but the destination holds {len(obs['files'])} files"
+    return None
+
+
+def _st_conflict(p, taken):
+    return any(p == q or q.startswith(p + "/") or p.startswith(q + "/") for q in taken)
+
+
+def _st_paths(rng, n, taken, prefix=""):
+    out = []
+    for _ in range(n * 4):
+        if len(out) >= n:
+            break
+        d = rng.choice(ST_DIRS)
+        p = prefix + (d + "/" if d else "") + rng.choice(ST_NAMES)
+        if not _st_conflict(p, taken):
+            taken.append(p)
+            out.append(p)
+    return out
+
+
+def gen_srctree(rng, kind=None, want_clear=None):
+    """one random small layout; returns a list of cases (the same tree for both functions where it is meaningful for both)"""
+    kind = kind or rng.choice(["raw", "zip", "zips", "zips"])
+    rel = rng.choice([None, "train", "train", "data/train", "im net/val"])
+    if want_clear is None:
+        want_clear = rng.random() < 0.7
+    extra = {}
+    fns = ["folder", "imagefolder"]
+    if kind == "zip":
+        taken = []
+        tree = {"kind": "zip", "members": _st_paths(rng, rng.choice([0, 1, 2, 3, 5]), taken)}
+        if rng.random() < 0.2 and rel is not None:
+            extra["src_is_file"] = True
+    elif kind == "raw":
+        taken = []
+        files = _st_paths(rng, rng.choice([0, 1, 2, 3, 4, 6]), taken)
+        top = lambda: {f.split("/")[0] for f in files} | set(extra.get("empty_dirs", []))
+        if rng.random() < 0.25 and not _st_conflict("void", taken):
+            extra["empty_dirs"] = ["void"]
+            taken.append("void")
+        n_other = len(top())
+        if want_clear:
+            # zips (real archives, copied as files) stay a strict minority: nZips < nItems // 2
+            nz = rng.choice([0, 0, 1, 2])
+            while nz > 0 and not nz < (n_other + nz) // 2:
+                nz -= 1
+        else:
+            nz = rng.choice([1, 2, 3])
+            while not nz >= (n_other + nz) // 2:
+                nz += 1
+        for i in range(nz):
+            if want_clear and i == 0 and rng.random() < 0.3:
+                files.append(f"old_{i}.zip/kept.bin")         # a top-level FOLDER named *.zip counts as a zip entry for the heuristic
+            else:
+                files.append(f"batch_{i}.zip")
+        if rng.random() < 0.3:
+            files.append("sub2/nested_archive.zip")           # not top level: no zip entry
+        rng.shuffle(files)
+        tp = top()
+        tree = {"kind": "raw", "zipSibling": rng.random() < 0.4, "nItems": len(tp), "nZips": sum(1 for t in tp if t.endswith(".zip")),
+                "files": files}
+    else:
+        classwise = rng.random() < 0.6
+        na = rng.choice([1, 1, 2, 3, 4]) if want_clear else rng.choice([0, 0, 1, 1, 2])
+        if want_clear:
+            no = rng.choice([k for k in range(0, 7) if na >= (na + k) // 2])
+        else:
+            cand = [k for k in range(0, 8) if na == 0 or not na >= (na + k) // 2]
+            no = rng.choice(cand)
+        taken, archives, names = [], [], []
+        if classwise:
+            stems = rng.sample(ST_STEMS, na)
+            for s in stems:
+                taken.append(s + ".zip")
+                archives.append(_st_paths(rng, rng.choice([0, 1, 2, 3]), taken, prefix=s + "/"))
+                names.append(s + ".zip")
+        else:
+            fns = ["folder"]
+            for i in range(na):
+                archives.append(_st_paths(rng, rng.choice([0, 1, 2, 3]), taken))
+                names.append(rng.choice(["batch_{}.zip", "part-{}.zip", "{}.zip"]).format(i))
+        others = rng.sample(ST_OTHERS, no)
+        tree = {"kind": "zips", "zipSibling": rng.random() < 0.4, "archives": archives, "others": no}
+        extra["archive_names"] = names
+        extra["other_names"] = others
+    if tree.get("zipSibling"):
+        extra["sibling_members"] = ["sibling_only.bin", "c0/sibling_too.bin"][:rng.choice([1, 2])]
+    out = []
+    for fn in fns:
+        c = dict({"_srctree": True, "fn": fn, "rel": rel, "tree": tree}, **extra)
+        if fn == "imagefolder" and kind == "zip" and rel is not None and rng.random() < 0.3:
+            c["rel_zip_suffix"] = True
+        out.append(c)
+    return out
+
+
+def srctree_fixed():
+    """hand-picked layouts: the boundary of the "mostly zips" heuristic on both sides, README variants, empty layouts"""
+    out = []
+    cw = [["n0/1.png", "n0/2.png"], ["n1/1.png"], ["dog/sub/x.JPEG"]]
+    nm = ["n0.zip", "n1.zip", "dog.zip"]
+    for no in range(0, 6):
+        for k in (1, 2, 3):
+            tree = {"kind": "zips", "zipSibling": no % 2 == 1, "archives": cw[:k], "others": no}
+            for fn in ("folder", "imagefolder"):
+                out.append({"_srctree": True, "fn": fn, "rel": "train", "tree": tree, "archive_names": nm[:k], "other_names": ST_OTHERS[:no],
+                            "sibling_members": ["sibling_only.bin"]})
+    for nz in range(0, 4):
+        for nplain in range(0, 6):
+            files = [f"batch_{i}.zip" for i in range(nz)] + [f"c{i}/f{i}.bin" for i in range(nplain)]
+            tree = {"kind": "raw", "zipSibling": (nz + nplain) % 3 == 0, "nItems": nz + nplain, "nZips": nz, "files": files}
+            for fn in ("folder", "imagefolder")[:1 + (nz + nplain) % 2]:
+                out.append({"_srctree": True, "fn": fn, "rel": None if nplain % 2 else "data/train", "tree": tree})
+    for fn in ("folder", "imagefolder"):
+        out.append({"_srctree": True, "fn": fn, "rel": "train", "tree": {"kind": "zip", "members": []}})
+        out.append({"_srctree": True, "fn": fn, "rel": None, "tree": {"kind": "zip", "members": ["a/b/c/d.bin", "top.bin"]}})
+        out.append({"_srctree": True, "fn": fn, "rel": "train", "rel_zip_suffix": True, "tree": {"kind": "zip", "members": ["c0/x.bin"]}})
+        out.append({"_srctree": True, "fn": fn, "rel": "train", "tree": {"kind": "zips", "zipSibling": False, "archives": [], "others": 0},
+                    "archive_names": [], "other_names": []})
+    return out
+
+
+def srctree_signature(case, obs):
+    t = case["tree"]
+    return ("srctree", case["fn"], t["kind"], st_clear(t), bool(t.get("zipSibling")), case["rel"], min(len(st_members(t)), 4),
+            t.get("others", 0) > 0, obs["status"], json.dumps(obs["result"]))
+
+
 class C20(PropertyCheck):
     pid = "C20"
     claimed = True
@@ -1203,6 +1517,7 @@ class C20(PropertyCheck):
             o3 = self._run(pool, c3)
             self._judge(res, c3, o3)
             n_zipc = self._zipcount_leg(res, pool)
+            n_srct = self._srctree_leg(res, pool)
             n_strace = 0
             n_timed = 0
             if not quick:
@@ -1215,7 +1530,10 @@ class C20(PropertyCheck):
                         f"{len(c2)} of {n2_all} ({'sampled' if quick else 'complete'}); {len(c3)} sampled histories with three kills; "
                         f"{n_zipc} folder-of-zips histories with 1..7 zips x num_workers 0..3 (joblib path {'sampled incl. 5/2, 7/3' if quick else 'complete'}); "
                         f"{n_strace} real-SIGKILL (strace) histories, {n_timed} timed process-group kills with num_workers=2; each history ends with two "
-                        "uninterrupted calls; distinct = (scenario, kill-point kinds, final result)")
+                        f"uninterrupted calls; distinct = (scenario, kill-point kinds, final result); {n_srct} source layouts given as `SrcTree` values "
+                        "(raw / zip / zips, clear-cut and not, with/without `<src>.zip` sibling and non-zip entries; fixed boundary grid + random), "
+                        "materialised on disk and copied by the real functions: `SrcTree.toSrc/members/format/Clear`, `checkSrc`, `fmtOf` (driver op "
+                        "cp.srctree) against what the code sees, reports and leaves below the destination")
         finally:
             pool.close()
         res.failures.sort(key=lambda f: len(json.dumps(f.input)))
@@ -1300,8 +1618,41 @@ class C20(PropertyCheck):
         self._judge(res, cases, obss)
         return len(cases)
 
+    def _srctree_leg(self, res, pool):
+        """`SrcTree` (Model/C20Spec.lean) against the code: every layout is materialised, copied by the real function(s) and compared with
+        the model's `toSrc` (what the code sees), `fmtOf`/`format` (what it reports), `members`/`nFiles` (what a complete copy holds)"""
+        quick = self.tier == "quick"
+        cases = srctree_fixed()
+        n_rand = 160 if quick else 1500
+        kinds = ["raw", "zip", "zips"]
+        for i in range(n_rand):
+            cases += gen_srctree(self.rng, kind=kinds[i % 3] if i < 60 else None, want_clear=(i % 2 == 0) if i < 60 else None)
+        obss = self._run(pool, cases)
+        answers = self.driver.run([{"op": "cp.srctree", "tree": c["tree"]} for c in cases])
+        for c, o, an in zip(cases, obss, answers):
+            res.cases += 1
+            res.nontrivial.add(srctree_signature(c, o))
+            t = c["tree"]
+            res.bump(f"srctree:{c['fn']}:{t['kind']}:{'clear' if st_clear(t) else 'unclear'}")
+            res.bump(f"srctree:reported={o['result'][2] if o['result'] else o['status']}")
+            if t.get("zipSibling"):
+                res.bump("srctree:zip-sibling-ignored")
+            why = compare_srctree(c, o, an)
+            if why and len(res.disagreements) < 40:
+                res.disagreements.append(Disagreement(dict(c), an, o, note="srctree: " + why))
+            for f in srctree_oracle(c, o):
+                if len(res.failures) < 40 and (sum(1 for g in res.failures if g.key == f.key) < 3):
+                    res.failures.append(f)
+        for c, o, an in zip(cases, obss, answers):
+            if c["tree"]["kind"] == "zips" and c["tree"]["others"] and st_clear(c["tree"]) and len(res.samples) < 5:
+                res.samples.append({"case": c, "model": an, "real": o})
+                break
+        return len(cases)
+
     # ---- search / replay ------------------------------------------------------------------------
     def _observe(self, case):
+        if case.get("_srctree"):
+            return run_srctree(case)
         if case.get("_strace"):
             return run_strace_history(case)
         return run_history(case)
@@ -1330,6 +1681,8 @@ class C20(PropertyCheck):
                         k = rng.randint(1, 16)
                         cr.append(k if rng.random() < 0.7 else [k, "mid"])
                     batch.append(dict(s, crashes=cr))
+                for _ in range(24):
+                    batch += gen_srctree(rng)
                 for c, r in zip(batch, pool.map(batch)):
                     if r["ok"]:
                         out += oracle(c, r["obs"])
